@@ -1635,6 +1635,13 @@ mod expression_parser {
     expressions.truncate(MAX_STRUCT_SIZE);
     let (end_loc, end_comments) = parser.assert_and_consume_operator(TokenOp::RightParenthesis);
     let loc = start_loc.union(&end_loc);
+    if expressions.len() == 1 {
+      // `(e,)`: there is no one-element tuple; report it and carry on with `e` itself.
+      parser
+        .error_set
+        .report_invalid_syntax_error(loc, "A tuple needs at least two elements".to_string());
+      return expressions.pop().unwrap();
+    }
     debug_assert!(expressions.len() > 1);
     expr::E::Tuple(
       expr::ExpressionCommon { loc, associated_comments: NO_COMMENT_REFERENCE, type_: () },
